@@ -733,6 +733,15 @@ class Emitter:
         cur = bt
         if isinstance(bt, (FnTy, VoidTy)) or (isinstance(bt, StructTy) and bt.opaque):
             return base
+        if idx0.kind == 'int' and idx0.data < 0 and len(ops) > 2 and all(o.kind == 'int' for o in ops[2:]):
+            # derived-from-base cast (`static_cast<D*>(node)`): ONE gep `node, -k, field`; the typed rendering &p[-k].f would form the
+            # intermediate address p - k*sizeof, which may lie before the object although the gep's result does not -> one byte offset
+            off = idx0.data * size_of(bt); c2 = bt; ok = True
+            for o in ops[2:]:
+                if isinstance(c2, StructTy): off += field_off(c2, o.data); c2 = c2.fields[o.data]
+                elif isinstance(c2, ArrTy): off += o.data * size_of(c2.el); c2 = c2.el
+                else: ok = False; break
+            if ok: return '((char*)%s + (%d))' % (base, off)
         expr = '((%s*)%s)' % (s.cty_mem(bt), base)
         first = s.idx(idx0, fn)
         if first is None: acc = '(*%s)' % expr
